@@ -126,8 +126,14 @@ def verify(ctx, repo, registry, prefix, qualnames, harness, expect_covers=(), ma
     if not agg:
         ctx.engine_error("%s: zero obligations generated" % prefix)
         return
+    keep = getattr(ctx, "vc_filter", None)
     for name, a in sorted(agg.items()):
         full = "%s.%s" % (prefix, name)
+        if keep is not None and not keep(full, a["kind"]):
+            # a contract shared with another property: obligations that this property does not claim are that property's, not this one's
+            ctx.extra.setdefault("obligations_left_to_their_own_property", 0)
+            ctx.extra["obligations_left_to_their_own_property"] += 1
+            continue
         status = {"discharged": core.DISCHARGED, "refuted": core.REFUTED, "undecided": core.UNDECIDED}[a["status"]]
         ctx.add_obligation(full, status, "z3", a["time"], "%s (%d path occurrence(s))" % (a["detail"], a["paths"]))
         if a["status"] == "refuted":
